@@ -25,6 +25,11 @@ Reference details that are deliberately NOT asserted:
     (plain OS semantics = what paramiko documents: "seek operations will be undone at the next write").
   * seeks whose resulting position would be negative are clamped to position 0 (local files reject them).
 
+History-relative seeks (``["seek", delta, "naive" | "wire" | "reqK"]``) are resolved to an absolute offset when the
+step is executed, from the harness's record of the handle's past (see _CaseState._hist_target); they exist because
+position caches (SFTPHandle.__tell on the server, _realpos on the client) are only consulted when a request starts
+exactly where an earlier one ended - random offsets practically never do.
+
 Domain restrictions (not findings): truncate only on handles opened for writing; at most 90 WRITE
 requests per pipelined handle (beyond 100 the C29 finding can block the client); the served files are
 opened unbuffered on the server side (vlib.sftpenv handle_buffering=0) so that a truncate, which the
@@ -50,7 +55,9 @@ LEVEL = "exploration"
 THOROUGH_WORKERS = 16
 RULE = (
     "hypothesis-generated programs of <= 40 operations (read/readline/readlines/iteration/write/writelines/"
-    "seek/tell/flush/truncate/close/re-open; singles, bursts of consecutive reads, tight read/write alternations, "
+    "seek/tell/flush/truncate/close/re-open; singles, bursts of consecutive reads, tight read/write alternations, revisit bursts = "
+    "reads/writes interleaved with seeks to positions of the handle's own past (where the position would be had every read/write simply "
+    "advanced it - at program level and at request level - and where the K-th last request ended, +-delta) followed by a bounded read or a write; "
     "optionally a tell() after every step) over a file with 0-20000 initial bytes rich in \\n and \\r (or absent), "
     "mode in r/r+/w/w+/a/a+/wx/w+x each with and without b, bufsize in {-1,0,1,2,7,1024,8192,65536}, pipelined on/off; "
     "run on SFTPClient.open() against a production SFTPServer and on a local twin file; transitions covered by an open "
